@@ -121,7 +121,8 @@ def generate(rng, tier):
                 if len(batch) >= 40:
                     out.append(mk(treegen.case_line("v", sub, sc, batch), model=False)); batch = []
         if batch: out.append(mk(treegen.case_line("v", sub, sc, batch), model=False))
-    return out
+    import stress
+    return out + [mk(l, model=True) for l in stress.tree_stream(tier)]
 
 
 def harness_line(c): return c["line"]
